@@ -275,20 +275,40 @@ func runImports(ic *IC, ex *exec.Exec, env *Env, sh impShape, bound int) {
 	if kf := env.KF.Open("C19", "imports:candidate-alias-is-taken-qualifier"); kf != nil {
 		// some candidate alias of one package (any level) equals the declared qualifier of another one or "sync"
 		for i := range ir.pkgs {
-			for l := 0; l <= maxLvl; l++ {
-				u := ir.uniqueNameRef(ex, i, l)
-				for j := range ir.pkgs {
-					if j != i {
-						assumeClass(c.Not(c.Eq(u, decl(j))))
-					}
+			// divergence needs the candidate to equal the other qualifier at every deeper level, i.e.
+			// the saturated candidate (all path elements) equals it; a clash at an intermediate level
+			// is resolved one level further down
+			sat := ir.uniqueNameRef(ex, i, maxLvl)
+			for j := range ir.pkgs {
+				if j != i {
+					assumeClass(c.Not(c.Eq(sat, decl(j))))
 				}
-				assumeClass(c.Not(c.Eq(u, c.StrC("sync")))) // the std package registered last holds "sync"
+			}
+			for l := 0; l <= maxLvl; l++ {
+				// the std package registered last has the one-element path "sync": its only candidate is "sync"
+				assumeClass(c.Not(c.Eq(ir.uniqueNameRef(ex, i, l), c.StrC("sync"))))
 			}
 		}
 		for i := range ir.pkgs {
 			assumeClass(c.Not(c.Eq(decl(i), c.StrC("sync"))))
 		}
 		ic.kfHit("C19", "imports:candidate-alias-is-taken-qualifier")
+	}
+	if kf := env.KF.Open("C11", "imports:alias-of-new-import-not-visible"); kf != nil {
+		// class: package i's candidate at level l is the declared qualifier of package j (so i is pushed one
+		// level down) and i's next candidate equals j's candidate at level l — which j then takes too,
+		// because the import being added is not in the registry while the conflict is resolved
+		for i := range ir.pkgs {
+			for j := range ir.pkgs {
+				if i == j {
+					continue
+				}
+				for l := 0; l < maxLvl; l++ {
+					assumeClass(c.Not(c.And(c.Eq(ir.uniqueNameRef(ex, i, l), decl(j)), c.Eq(ir.uniqueNameRef(ex, i, l+1), ir.uniqueNameRef(ex, j, l)))))
+				}
+			}
+		}
+		ic.kfHit("C11", "imports:alias-of-new-import-not-visible")
 	}
 	if kf := env.KF.Open("C11", "imports:generated-alias-not-an-identifier"); kf != nil {
 		for i := range ir.pkgs {
@@ -509,9 +529,10 @@ func runImports(ic *IC, ex *exec.Exec, env *Env, sh impShape, bound int) {
 		}
 		var same []*smt.Term
 		for k := range first {
-			same = append(same, c.Eq(qualifierOf(ex, first[k]), qualifierOf(ex, second[k])), c.Eq(first[k].Key, second[k].Key))
+			// the import declaration prints the alias when it is non-empty: alias and path must coincide, not only the qualifier
+			same = append(same, c.Eq(first[k].Alias, second[k].Alias), c.Eq(qualifierOf(ex, first[k]), qualifierOf(ex, second[k])), c.Eq(first[k].Key, second[k].Key))
 		}
-		ex.Oblige(c.And(same...), "C15: regenerating with the previous output left in the package yields the same import qualifiers (the output is a fixed point)")
+		ex.Oblige(c.And(same...), "C15: regenerating with the previous output left in the package yields the same import declarations (the output is a fixed point)")
 		return
 	}
 	// the destination package itself is never imported
@@ -600,14 +621,14 @@ func importsCase(sh impShape, m map[string]string) *CLICase {
 		if p.Aliased {
 			a := nonEmpty(m[fmt.Sprintf("p%d_alias", i)], fmt.Sprintf("al%d", i))
 			srcImports = append(srcImports, fmt.Sprintf("\t%s %q", a, ipath))
-			methods = append(methods, fmt.Sprintf("\tM%d(x %s.T)", i, a))
+			methods = append(methods, fmt.Sprintf("\tM%d(zzparam %s.T)", i, a))
 		} else {
 			h := fmt.Sprintf("zzhelper%d", i)
 			hdir := h
 			if p.Vendor {
 				hdir = "src/" + h // the helper must sit below src/ to see src/vendor
 			}
-			files[hdir+"/h.go"] = fmt.Sprintf("package %s\n\nimport zzdep %q\n\ntype J interface{ M%d(x zzdep.T) }\n", h, ipath, i)
+			files[hdir+"/h.go"] = fmt.Sprintf("package %s\n\nimport zzdep %q\n\ntype J interface{ M%d(zzparam zzdep.T) }\n", h, ipath, i)
 			hpath := impPrefix + "/" + hdir
 			srcImports = append(srcImports, fmt.Sprintf("\t%q", hpath))
 			embeds = append(embeds, fmt.Sprintf("\t%s.J", h))
@@ -797,6 +818,24 @@ func importsReplay(ic *IC, sh impShape, label string, model map[string]string) *
 		v.Detail = "replay could not run: " + err.Error()
 		return v
 	}
+	if prop == "C14" {
+		// determinism is observed by repetition: Go randomises map iteration on every run
+		outs := map[string]int{}
+		for i := 0; i < 40; i++ {
+			res, root, rerr := env.RunCLI(cs)
+			if root != "" {
+				os.RemoveAll(root)
+			}
+			if rerr != nil {
+				break
+			}
+			outs[res.Out]++
+		}
+		tr += fmt.Sprintf("40 runs of 'moq . I' produced %d distinct outputs\n", len(outs))
+		if len(outs) > 1 {
+			findings = append(findings, "C14: repeated runs on the same input give different output")
+		}
+	}
 	os.WriteFile(filepath.Join(dir, "replay.out"), []byte(tr), 0o644)
 	for _, f := range findings {
 		for _, p := range append([]string{prop}, v.Props...) {
@@ -907,8 +946,16 @@ func (env *Env) fixpointObserve(sh impShape, model map[string]string) (differs b
 	b1, _ := os.ReadFile(filepath.Join(cwd, outName))
 	o2, e2 := runCmd(cwd, 2*time.Minute, cliEnv(), bin, cs.Args...)
 	b2, _ := os.ReadFile(filepath.Join(cwd, outName))
-	tr = fmt.Sprintf("moq "+strings.Join(cs.Args, " ")+"\nfirst run: err=%v %s\nsecond run: err=%v %s\nidentical=%v (%d vs %d bytes)\n", e1, short(o1, 200), e2, short(o2, 200), string(b1) == string(b2), len(b1), len(b2))
-	return e1 == nil && (e2 != nil || string(b1) != string(b2)), tr, cs, nil
+	imp := func(b []byte) string { // the import block
+		s := string(b)
+		i, j := strings.Index(s, "import ("), strings.Index(s, "\n)")
+		if i < 0 || j < i {
+			return s
+		}
+		return s[i : j+2]
+	}
+	tr = fmt.Sprintf("moq "+strings.Join(cs.Args, " ")+"\nfirst run: err=%v %s\nsecond run: err=%v %s\nfiles identical=%v (%d vs %d bytes)\nimport block of run 1:\n%s\nimport block of run 2:\n%s\n", e1, short(o1, 200), e2, short(o2, 200), string(b1) == string(b2), len(b1), len(b2), imp(b1), imp(b2))
+	return e1 == nil && (e2 != nil || imp(b1) != imp(b2)), tr, cs, nil
 }
 
 func fixpointReplay(ic *IC, sh impShape, label string, model map[string]string) *Violation {
